@@ -125,6 +125,21 @@ theorem c09_leaf_coercion_idempotent (t : Ty) (j j' : Json) (h : validatePrim t 
 example : Coerced .int (.str "-12") (.int (-12)) ∧ Coerced .str (.int 5) (.str "5") :=
   ⟨.intOfStr _ _ (by decide), .strOfInt 5⟩
 
+/-- The class ids of the generated table are pairwise distinct (lookup by id is unambiguous). -/
+theorem c09_class_ids_distinct : (classes.map (·.id)).Nodup := by decide +kernel
+
+/-- **Nothing but the class a value is validated against matters.**  The model has no other state:
+for EVERY reordering of the class table (the order in which modules happen to be imported) and for
+any two tables that resolve every class id alike — whatever other classes with the same Python name
+they also hold — every value of every type gets the same typed value. -/
+theorem c09_table_order_irrelevant (inv : String → Obj → Bool) (classes' : List Class)
+    (hp : classes.Perm classes') (t : Ty) (j : Json) :
+    validate (cfgOf inv) t j = validate { classes := classes', calls := fallbackCalls, inv := inv } t j :=
+  validate_congr (cfg := cfgOf inv) (cfg' := { classes := classes', calls := fallbackCalls, inv := inv })
+    (fun id => find?_perm_of_nodup hp c09_class_ids_distinct id) rfl rfl (sizeOf j + 1) j (by omega) t
+
+example : classes.Perm classes.reverse := (List.reverse_perm classes).symm
+
 /-- hook names of a class that a backend calls after construction -/
 def calledHooks (calls : List String) (c : Class) : List String := c.hooks.filter (fun h => calls.contains h)
 
